@@ -8,7 +8,14 @@ for d in sorted(glob.glob('/verif/seeded/*/')):
         continue
     m = json.load(open(mp))
     name = os.path.basename(d.rstrip('/'))
-    det = '; '.join(f"{k}: {'DETECTED' if v['detected'] else 'missed (exit %s)' % v['exit']}" for k, v in sorted(m.get('checks', {}).items()))
+    own = m.get('property')
+    parts = []
+    for k, v in sorted(m.get('checks', {}).items(), key=lambda kv: (not kv[0].startswith(own), kv[0])):
+        if k.startswith(own):
+            parts.append(f"{k}: {'DETECTED' if v['detected'] else 'MISSED (exit %s)' % v['exit']}")
+        else:
+            parts.append(f"(other property {k}: {'also detects' if v['detected'] else 'silent, as expected'})")
+    det = '; '.join(parts)
     keys = []
     for v in m.get('checks', {}).values():
         for l in v.get('lines', []):
